@@ -428,11 +428,379 @@ def _int_only(x):
     return x
 
 
+# ---------------------------------------------------------------------------------------------------------------------
+# random probes: the concrete oracle of a container contract whose function left the verifier's subset (the loop was
+# rewritten, a new construct appeared).  Random operations against the builtin model on validated items; every clause of
+# the statement (C05 / C06 / C07 + failure atomicity) is evaluated.  Only a failing input found here counts.
+# ---------------------------------------------------------------------------------------------------------------------
+class _Unhashable(list):
+    pass
+
+
+def _dict_reconstruct(after, ev):
+    removed, added, changed = ev
+    before = dict(after)
+    for k in added:
+        before.pop(k, None)
+    before.update(changed)
+    before.update(removed)
+    return before
+
+
+def _validated_pairs(pairs, kv, vv):
+    """item by item, in order: the first item that fails (validation or hashing) decides the exception"""
+    out = []
+    for k, v in pairs:
+        kk, w = kv(k), vv(v)
+        hash(kk)
+        out.append((kk, w))
+    return out
+
+
+def dict_probe_case(case):
+    import random
+    from traits.trait_dict_object import TraitDict
+    from traits.trait_errors import TraitError
+    rnd = random.Random(int(case.get("seed", 0)))
+    violated = []
+
+    def kv(k):
+        if k == "bad":
+            raise TraitError("bad key")
+        return str(k) if mode == "coerce" else k
+
+    def vv(v):
+        if v == -1:
+            raise TraitError("bad value")
+        return v
+    for trial in range(int(case.get("trials", 400))):
+        mode = rnd.choice(["coerce", "identity"])
+        start = {kv(k): rnd.randint(0, 5) for k in rnd.sample([1, 2, "1", "a", "b"], rnd.randint(0, 3))}
+        td = TraitDict(dict(start), key_validator=kv, value_validator=vv)
+        events = []
+        td.notifiers.append(lambda d, removed, added, changed: events.append((dict(removed), dict(added), dict(changed))))
+        model = dict(start)
+        keys = [1, 2, "1", "a", "b", "c", "bad"]
+
+        def pairs(n):
+            return [(rnd.choice(keys), rnd.choice([0, 1, 2, 3, -1, 7])) for _ in range(n)]
+        op = rnd.choice(["update-map", "update-pairs", "update-pairs", "update-unhashable", "ior", "setitem", "delitem", "pop", "pop-default", "popitem", "setdefault", "clear"])
+        desc = None
+        try:
+            ref_exc = got_exc = None
+            ref_res = got_res = None
+            before = dict(model)
+            if op in ("update-map", "ior"):
+                arg = dict(pairs(rnd.randint(0, 3)))
+                desc = "%s(%r)" % (op, arg)
+                try:
+                    model.update(_validated_pairs(arg.items(), kv, vv))
+                except Exception as e:
+                    ref_exc, model = type(e), dict(before)
+                try:
+                    if op == "ior":
+                        td |= arg
+                    else:
+                        td.update(arg)
+                except Exception as e:
+                    got_exc = type(e)
+            elif op in ("update-pairs", "update-unhashable"):
+                arg = pairs(rnd.randint(0, 4))
+                if op == "update-unhashable":
+                    arg.insert(rnd.randint(0, len(arg)), (_Unhashable(), 3))
+                desc = "update(%r)" % (arg,)
+                try:
+                    model.update(_validated_pairs(arg, kv, vv))
+                except Exception as e:
+                    ref_exc, model = type(e), dict(before)
+                try:
+                    td.update(arg)
+                except Exception as e:
+                    got_exc = type(e)
+            elif op == "setitem":
+                k, v = rnd.choice(keys), rnd.choice([0, 1, -1, 9])
+                desc = "d[%r] = %r" % (k, v)
+                try:
+                    model[kv(k)] = vv(v)
+                except Exception as e:
+                    ref_exc, model = type(e), dict(before)
+                try:
+                    td[k] = v
+                except Exception as e:
+                    got_exc = type(e)
+            elif op in ("delitem", "pop", "pop-default"):
+                k = rnd.choice(["1", "a", "b", "zz", 1])
+                desc = "%s %r" % (op, k)
+                try:
+                    if op == "delitem":
+                        del model[k]
+                    elif op == "pop":
+                        ref_res = model.pop(k)
+                    else:
+                        ref_res = model.pop(k, "dflt")
+                except Exception as e:
+                    ref_exc = type(e)
+                try:
+                    if op == "delitem":
+                        del td[k]
+                    elif op == "pop":
+                        got_res = td.pop(k)
+                    else:
+                        got_res = td.pop(k, "dflt")
+                except Exception as e:
+                    got_exc = type(e)
+            elif op == "popitem":
+                desc = "popitem()"
+                try:
+                    ref_res = model.popitem()
+                except Exception as e:
+                    ref_exc = type(e)
+                try:
+                    got_res = td.popitem()
+                except Exception as e:
+                    got_exc = type(e)
+            elif op == "setdefault":
+                k, v = rnd.choice(["1", "a", "q"]), rnd.choice([0, 4, -1])
+                desc = "setdefault(%r, %r)" % (k, v)
+                try:
+                    if k in model:
+                        ref_res = model[k]
+                    else:
+                        ref_res = model.setdefault(kv(k), vv(v))
+                except Exception as e:
+                    ref_exc, model = type(e), dict(before)
+                try:
+                    got_res = td.setdefault(k, v)
+                except Exception as e:
+                    got_exc = type(e)
+            else:
+                desc = "clear()"
+                model.clear()
+                td.clear()
+            after = dict(td)
+            w = "%s on %r (%s keys)" % (desc, before, mode)
+            if got_exc is not ref_exc:
+                violated.append("%s: raised %s, dict on validated items %s" % (w, got_exc and got_exc.__name__, ref_exc and ref_exc.__name__))
+            elif got_exc is not None:
+                if after != before:
+                    violated.append("%s: failing operation changed the contents to %r" % (w, after))
+                if events:
+                    violated.append("%s: failing operation notified %r" % (w, events))
+            else:
+                if after != model:
+                    violated.append("%s: contents %r, dict gives %r" % (w, after, model))
+                if got_res != ref_res:
+                    violated.append("%s: returned %r, dict returns %r" % (w, got_res, ref_res))
+                if len(events) > 1:
+                    violated.append("%s: %d events" % (w, len(events)))
+                if after != before and not events:
+                    violated.append("%s: contents changed without an event" % w)
+                for ev in events:
+                    removed, added, changed = ev
+                    if not (removed or added or changed):
+                        violated.append("%s: event with three empty parts" % w)
+                    if _dict_reconstruct(after, ev) != before:
+                        violated.append("%s: previous contents not reconstructible from %r" % (w, ev))
+                    if any(k in before for k in added) or any(after.get(k, object()) != v for k, v in added.items()):
+                        violated.append("%s: added %r: keys must be new and hold the given values" % (w, added))
+                    if any(before.get(k, object()) != v for k, v in changed.items()):
+                        violated.append("%s: changed %r does not hold the previous values" % (w, changed))
+                    if any(before.get(k, object()) != v or k in after for k, v in removed.items()):
+                        violated.append("%s: removed %r" % (w, removed))
+        except Exception as e:       # harness trouble is not a reproduction
+            return dict(reproduced=False, detail="harness error %r on %s" % (e, desc))
+        if len(violated) >= 4:
+            break
+    return dict(reproduced=bool(violated), violated=violated[:4])
+
+
+def list_probe_case(case):
+    import random
+    from fractions import Fraction
+    from traits.trait_list_object import TraitList
+    from traits.trait_errors import TraitError
+    rnd = random.Random(int(case.get("seed", 0)))
+    violated = []
+
+    def iv(x):
+        if x == -1:
+            raise TraitError("bad item")
+        return x
+    for trial in range(int(case.get("trials", 600))):
+        start = [rnd.randint(0, 9) for _ in range(rnd.randint(0, 6))]
+        tl = TraitList(list(start), item_validator=iv)
+        events = []
+        tl.notifiers.append(lambda l, i, r, a: events.append((i, list(r), list(a))))
+        model = list(start)
+        n = len(start)
+
+        def idx():
+            return rnd.randint(-n - 2, n + 2)
+
+        def sl():
+            return slice(rnd.choice([None, idx()]), rnd.choice([None, idx()]), rnd.choice([None, 1, 2, 3, -1, -2]))
+        items = lambda m: [rnd.choice([0, 5, 7, -1]) if rnd.random() < 0.15 else rnd.randint(10, 19) for _ in range(m)]
+        op = rnd.choice(["setint", "setslice", "delint", "delslice", "append", "extend", "iadd", "imul", "imul-odd", "insert", "pop", "remove", "clear", "reverse", "sort"])
+        arg = None
+        if op == "setint":
+            arg = (idx(), items(1)[0]); f = lambda L, v=None: L.__setitem__(arg[0], (v or (lambda x: x))(arg[1]))
+        elif op == "setslice":
+            k = sl(); arg = (k, items(rnd.randint(0, 4))); f = lambda L, v=None: L.__setitem__(arg[0], [(v or (lambda x: x))(x) for x in arg[1]])
+        elif op == "delint":
+            arg = idx(); f = lambda L, v=None: L.__delitem__(arg)
+        elif op == "delslice":
+            arg = sl(); f = lambda L, v=None: L.__delitem__(arg)
+        elif op == "append":
+            arg = items(1)[0]; f = lambda L, v=None: L.append((v or (lambda x: x))(arg))
+        elif op in ("extend", "iadd"):
+            arg = items(rnd.randint(0, 3)); f = lambda L, v=None: L.extend([(v or (lambda x: x))(x) for x in arg])
+        elif op == "imul":
+            arg = rnd.randint(-1, 3); f = lambda L, v=None: L.__imul__(arg)
+        elif op == "imul-odd":
+            arg = rnd.choice([0.5, 0.0, -1.5, 2.5, Fraction(1, 2), "5", None]); f = lambda L, v=None: L.__imul__(arg)
+        elif op == "insert":
+            arg = (idx(), items(1)[0]); f = lambda L, v=None: L.insert(arg[0], (v or (lambda x: x))(arg[1]))
+        elif op == "pop":
+            arg = rnd.choice([None, idx()]); f = lambda L, v=None: L.pop() if arg is None else L.pop(arg)
+        elif op == "remove":
+            arg = rnd.randint(0, 9); f = lambda L, v=None: L.remove(arg)
+        elif op == "clear":
+            f = lambda L, v=None: L.clear()
+        elif op == "reverse":
+            f = lambda L, v=None: L.reverse()
+        else:
+            f = lambda L, v=None: L.sort()
+        ref_exc = got_exc = None
+        try:
+            ref_res = f(model, iv)
+        except Exception as e:
+            ref_exc, model = type(e), list(start)
+        try:
+            got_res = f(tl)
+        except Exception as e:
+            got_exc = type(e)
+        after = list(tl)
+        w = "%s %r on %r" % (op, arg, start)
+        if got_exc is not ref_exc:
+            violated.append("%s: raised %s, list on validated items %s" % (w, got_exc and got_exc.__name__, ref_exc and ref_exc.__name__))
+        elif got_exc is not None:
+            if after != start or events:
+                violated.append("%s: failing operation left %r, events %r" % (w, after, events))
+        else:
+            if after != model:
+                violated.append("%s: contents %r, list gives %r" % (w, after, model))
+            if op == "pop" and got_res != ref_res:
+                violated.append("%s: returned %r, list returns %r" % (w, got_res, ref_res))
+            if len(events) > 1:
+                violated.append("%s: %d events" % (w, len(events)))
+            if after != start and not events:
+                violated.append("%s: contents changed without an event" % w)
+            for ev in events:
+                if not normal_form(start, ev):
+                    violated.append("%s: event %r is not in normal form for %r" % (w, ev, start))
+                elif replay_event(start, ev) != after:
+                    violated.append("%s: replaying %r on %r gives %r, contents are %r" % (w, ev, start, replay_event(start, ev), after))
+        if len(violated) >= 4:
+            break
+    return dict(reproduced=bool(violated), violated=violated[:4])
+
+
+def set_probe_case(case):
+    import random
+    from traits.trait_set_object import TraitSet
+    from traits.trait_errors import TraitError
+    rnd = random.Random(int(case.get("seed", 0)))
+    violated = []
+    for trial in range(int(case.get("trials", 600))):
+        mode = rnd.choice(["coerce", "identity"])
+
+        def iv(x):
+            if x == "bad":
+                raise TraitError("bad item")
+            return int(x) if mode == "coerce" else x
+        universe = [1, 2, 3, 4, "3", "7", "bad"] if mode == "coerce" else [1, 2, 3, 4, 5, "bad"]
+        start = {iv(x) for x in rnd.sample([1, 2, 3, 4], rnd.randint(0, 4))}
+        ts = TraitSet(set(start), item_validator=iv)
+        events = []
+        ts.notifiers.append(lambda s, r, a: events.append((set(r), set(a))))
+        operand = lambda: rnd.choice([set, frozenset, list])(rnd.sample(universe, rnd.randint(0, 3)))
+        op = rnd.choice(["add", "discard", "remove", "pop", "clear", "update", "update2", "ior", "iand", "isub", "ixor", "difference_update", "intersection_update", "symmetric_difference_update"])
+        model, ref_exc, got_exc = set(start), None, None
+        a1, a2 = operand(), operand()
+        x = rnd.choice(universe)
+        ident = mode == "identity"
+        check_contents = True
+        import operator
+        f = {"add": lambda: ts.add(x), "discard": lambda: ts.discard(x), "remove": lambda: ts.remove(x), "pop": lambda: ts.pop(), "clear": lambda: ts.clear(),
+             "update": lambda: ts.update(a1), "update2": lambda: ts.update(a1, a2), "ior": lambda: operator.ior(ts, a1), "iand": lambda: operator.iand(ts, a1),
+             "isub": lambda: operator.isub(ts, a1), "ixor": lambda: operator.ixor(ts, a1), "difference_update": lambda: ts.difference_update(a1),
+             "intersection_update": lambda: ts.intersection_update(a1), "symmetric_difference_update": lambda: ts.symmetric_difference_update(a1)}[op]
+        try:
+            if op == "add":
+                model.add(iv(x))
+            elif op == "discard":
+                model.discard(x)
+            elif op == "remove":
+                model.remove(x)
+            elif op == "pop":
+                check_contents = False
+                if not model:
+                    raise KeyError()
+            elif op == "clear":
+                model.clear()
+            elif op == "update":
+                model.update({iv(y) for y in a1})
+            elif op == "update2":
+                model.update({iv(y) for y in a1}, {iv(y) for y in a2})
+            elif op in ("ior", "iand", "isub", "ixor") and isinstance(a1, list):
+                raise TypeError()
+            elif op == "ior":
+                model |= {iv(y) for y in a1}
+            elif op == "iand":
+                model &= set(a1)
+            elif op == "isub":
+                model -= set(a1)
+            elif op in ("ixor", "symmetric_difference_update"):
+                {iv(y) for y in set(a1) - model}
+                model ^= set(a1); check_contents = ident
+            elif op == "difference_update":
+                model.difference_update(a1)
+            elif op == "intersection_update":
+                model.intersection_update(a1)
+        except Exception as e:
+            ref_exc, model = type(e), set(start)
+        try:
+            f()
+        except Exception as e:
+            got_exc = type(e)
+        after = set(ts)
+        w = "%s(%r%s) on %r (%s items)" % (op, x if op in ("add", "discard", "remove") else a1, ", %r" % (a2,) if op == "update2" else "", start, mode)
+        if got_exc is not ref_exc:
+            violated.append("%s: raised %s, set on validated items %s" % (w, got_exc and got_exc.__name__, ref_exc and ref_exc.__name__))
+        elif got_exc is not None:
+            if after != start or events:
+                violated.append("%s: failing operation left %r, events %r" % (w, after, events))
+        else:
+            if check_contents and after != model:
+                violated.append("%s: contents %r, set gives %r" % (w, after, model))
+            if len(events) > 1:
+                violated.append("%s: %d events" % (w, len(events)))
+            if (after != start) != bool(events):
+                violated.append("%s: contents %s, %d event(s)" % (w, "changed" if after != start else "unchanged", len(events)))
+            for (r, a) in events:
+                if not r <= start or a & start or (start - r) | a != after:
+                    violated.append("%s: event (removed %r, added %r) is not the delta from %r to %r" % (w, r, a, start, after))
+        if len(violated) >= 4:
+            break
+    return dict(reproduced=bool(violated), violated=violated[:4])
+
+
 def main():
     case = json.loads(sys.stdin.read())
     fam = case.get("family", "list")
     out = {"list": list_case, "dict": dict_case, "dict_event_factory": dict_event_factory_case,
-           "set_copy": set_copy_case, "set": set_case}[fam](case)
+           "set_copy": set_copy_case, "set": set_case, "dict_probe": dict_probe_case, "list_probe": list_probe_case,
+           "set_probe": set_probe_case}[fam](case)
     print(json.dumps(out, default=repr))
 
 
